@@ -14,6 +14,7 @@ import Vicut.Model.Undo
 import Vicut.Model.Search
 import Vicut.Model.ExRef
 import Vicut.Model.Verbs
+import Vicut.Model.Pos
 
 open Lean Vicut
 
@@ -367,6 +368,34 @@ def opVerb (req : Json) : Json :=
                             | some (s, e) => Json.arr #[s, e]
                             | none => Json.null)]
 
+def clampOf (j : Json) : Clamp :=
+  ⟨jnat j "value", jnat j "max", jbool j "exclusive"⟩
+
+def clampJson (c : Clamp) : Json := Json.mkObj [("value", c.value), ("max", c.max), ("exclusive", c.excl)]
+
+/-- `{"op":"pos","gs":[..],"cur":{value,max,exclusive},"cache":[..]|null,"was_insert":b}`: the model's
+well-formedness verdicts on an observed state, what the model reports for it, and the state after
+`set_normal_mode`. -/
+def opPos (req : Json) : Json :=
+  let gs := gsOf req
+  let cur := clampOf ((req.getObjVal? "cur").toOption.getD Json.null)
+  let cache : Option (List Nat) := match req.getObjVal? "cache" with
+    | .ok (.arr a) => some (a.toList.map (fun x => x.getNat?.toOption.getD 0))
+    | _ => none
+  let s : EdPos := ⟨gs, cur, cache⟩
+  let sn := setNormalMode (jbool req "was_insert") s
+  Json.mkObj [
+    ("wf", decide s.WF), ("normal_ok", decide s.NormalOk),
+    ("max_ok", decide (cur.max = gs.length)), ("clamp_ok", decide cur.Ok),
+    ("cache_ok", decide (cache = none ∨ cache = some (offsets gs))),
+    ("on_terminator", onTerminator gs cur.value),
+    ("pos", Json.num (s.indexBytePos cur.value : Nat)),
+    ("line", Json.num (((gs.take cur.value).flatten.count '\n' + 1 : Nat))),
+    ("col", match cursorCol gs cur.value with | some c => Json.num (c + 1 : Nat) | none => Json.str "underflow"),
+    ("char", J ((gs[cur.value]?).getD [])),
+    ("buf_len", Json.num (byteLen gs.flatten : Nat)),
+    ("set_normal", clampJson sn.cur)]
+
 def dispatch (req : Json) : Json :=
   match jstr req "op" with
   | "ping" => Json.mkObj [("pong", true)]
@@ -382,6 +411,7 @@ def dispatch (req : Json) : Json :=
   | "exref" => opExRef req
   | "global" => opGlobal req
   | "verb" => opVerb req
+  | "pos" => opPos req
   | op => Json.mkObj [("err", Json.str s!"unknown op {op}")]
 
 partial def loop (h : IO.FS.Stream) (out : IO.FS.Stream) : IO Unit := do
